@@ -203,6 +203,12 @@ class Tracer:
                 continue  # references are transparent
             if isinstance(p, dict):
                 if "f" in p:
+                    if e.k == "bin" and str(e.extra).endswith("WithOverflow"):
+                        if p["f"] == 0:
+                            e = E("bin", e.a, ty=p.get("ty"), nid=e.nid, extra=e.extra[:-len("WithOverflow")])
+                        else:
+                            e = E("overflow_flag", [e])
+                        continue
                     # field of an aggregate built in this body -> the operand
                     if e.k == "agg" and p["f"] < len(e.a) and not ("adt" in p and e.extra and "::" in e.extra and False):
                         e = e.a[p["f"]]
@@ -527,6 +533,8 @@ def counter_locals(body):
             # (_t.0) of AddWithOverflow/SubWithOverflow(copy l, const c), or plain Add/Sub
             if v.k == "field" and v.a:
                 v = v.a[0]
+            if v.k == "bin" and v.extra in ("Add", "Sub", "AddWithOverflow", "SubWithOverflow", "AddUnchecked", "SubUnchecked"):
+                pass
             if v.k == "bin" and v.extra in ("Add", "Sub", "AddWithOverflow", "SubWithOverflow", "AddUnchecked", "SubUnchecked"):
                 x, y = v.a
                 if x.k == "local" and x.extra == l and y.k == "const" and "val" in (y.extra or {}):
